@@ -64,6 +64,7 @@ def spec_main(steps):
                 main = ch
             else:
                 bad.add(failed)
+                bad.add(b)           # the arriving block is discarded with the verdict (MMR.tla: dropped)
         out.append(dict(s, main=list(main), bad=sorted(bad)))
     return out, bad
 
